@@ -182,6 +182,7 @@ inductive ValKind where
   | str     -- string of the decimal digits
   | ptr     -- `*uint64` (compared by pointee, never by address), JSON decimal
   | iface   -- struct with an `interface{}` field holding a slice: `{"X":["<digits>"]}`
+  | long    -- long string: `<digits>-` and filler; marshaled length 127, 128, 129, 16383, 16384, 16385 (v % 6)
   deriving Repr, DecidableEq, Inhabited
 
 namespace Codec
@@ -220,6 +221,10 @@ def valBytes (vk : ValKind) (v : Nat) : Bytes :=
   | .str => quote (digits v)
   | .ptr => digits v
   | .iface => str "{\"X\":[" ++ quote (digits v) ++ str "]}"
+  | .long =>
+      let head := digits v ++ [45]
+      let total := [127, 128, 129, 16383, 16384, 16385][v % 6]! - 2
+      quote (head ++ List.replicate (total - head.length) (97 + v % 26).toUInt8)
 
 end Codec
 end Mast
